@@ -170,6 +170,18 @@ def fill_unprocessed_contract(eng, for_callers=False):
         if "_entries_sorted" not in s.locals:
             return [("early return only if nothing to do; state untouched", z3.And(U0len == 0, D.arr == D0, P.arr == P0, P.len == P0len, z3.Not(MH0)))]
         S = s.locals["_entries_sorted"]
+        if "_current_entry_index" not in s.locals:
+            # a return after the batch was sorted that does not come through the merge loop (no such path on the unchanged tree): it is judged
+            # against the abstract postcondition alone - the contract does not depend on which temporaries that path happens to have defined
+            return [
+                ("unprocessed cleared", U.len == 0), ("data length unchanged", D.len == n + 2),
+                ("counts = old + count(bin_of o unprocessed batch)  [np.sort is count-preserving]", z3.ForAll([k], z3.Implies(z3.And(0 <= k, k <= n + 1), D.arr[k] == D0[k] + cntb(U0, U0len, k)))),
+                ("processed' length", P.len == P0len + S.len),
+                ("processed' = processed ++ sorted batch (suffix)", z3.ForAll([i], z3.Implies(z3.And(0 <= i, i < S.len), P.arr[P0len + i] == S.arr[i]))),
+                ("processed' = processed ++ sorted batch (prefix)", z3.ForAll([i], z3.Implies(z3.And(0 <= i, i < P0len), P.arr[i] == P0[i]))),
+                ("class invariant re-established", inv_H(vw, s)),
+                ("not manual", z3.Not(MH0)),
+            ]
         N, ei = S.len, s.locals["_current_entry_index"].e
         # explicit lemma call cnt_range_const(A=S, a=ei, b=N, c=n+1): remaining entries are overflows
         vw.eng.oblige("lemma-call cnt_range_const: remaining entries are all >= last edge", s, z3.ForAll([i], z3.Implies(z3.And(ei <= i, i < N), binof(S.arr[i]) == n + 1)))
